@@ -533,7 +533,7 @@ class HyASTCompiler:
         return new_name
 
     def _nonconst(self, name):
-        if str(name) in ("None", "True", "False"):
+        if mangle(name) in ("None", "True", "False"):
             raise self._syntax_error(name, "Can't assign to constant")
         return name
 
